@@ -310,6 +310,8 @@ func (s *Schema) sexp() string {
 		for _, f := range m.Fields {
 			var ty string
 			switch {
+			case f.IsMap && !f.MapValOK:
+				ty = "(mapother)"
 			case f.IsMap:
 				ty = fmt.Sprintf("(map %s %s)", f.MapKey, f.MapVal)
 			case f.Kind == KMsg:
